@@ -1,6 +1,7 @@
 import CoreBGP.Model.Session
 import CoreBGP.Spec.Wire
 import CoreBGP.Lemmas.Reader
+import CoreBGP.Lemmas.Session
 /-!
 # C04 — the outbound byte stream is whole well-formed messages; the WriteUpdate contract
 
@@ -23,31 +24,48 @@ def WellFormedMsg (b : Bytes) : Prop :=
 (so a reader that delimits by the length field alone sees exactly what was written) -/
 theorem frames (ms : List (UInt8 × Bytes)) (h : ∀ m ∈ ms, Spec.knownType m.1 = true ∧ m.2.length ≤ 4077) :
     Spec.parseStream (ms.map fun m => Spec.frame m.1 m.2).flatten = (ms, .clean) := by
-  sorry
+  unfold Spec.parseStream
+  exact Lemmas.frames_concat ms _ h (Nat.lt_succ_of_le (Lemmas.frames_flatten_length ms))
 
 /-- the messages corebgp builds are well formed: KEEPALIVE, UPDATE (body ≤ 4077), NOTIFICATION
 (data ≤ 4075), OPEN (whenever `encodeOpen` succeeds) -/
 theorem keepalive_wf : WellFormedMsg kaBytes := by
-  sorry
+  refine ⟨4, [], ?_, rfl, by simp⟩
+  exact Lemmas.prependHeader_eq_frame [] _ (by simp)
 
 theorem update_wf (b : Bytes) (h : b.length ≤ 4077) : WellFormedMsg (updateBytes b) := by
-  sorry
+  refine ⟨2, b, ?_, rfl, h⟩
+  exact Lemmas.prependHeader_eq_frame b _ h
 
 theorem notif_wf (n : Notif) (h : n.data.length ≤ 4075) : WellFormedMsg (encodeNotif n) := by
-  sorry
+  refine ⟨3, [n.code, n.sub] ++ n.data, Lemmas.notif_wire n h, rfl, ?_⟩
+  simp only [List.length_append, List.length_cons, List.length_nil]
+  omega
 
 theorem open_wf (o : OpenMsg) (b : Bytes) (h : encodeOpen o = some b) : WellFormedMsg b := by
-  sorry
+  unfold encodeOpen at h
+  cases hb : encodeOpenBody o with
+  | none => simp [hb] at h
+  | some body =>
+    have hl := Lemmas.encodeOpenBody_length o body hb
+    simp only [hb, Option.map_some, Option.some.injEq] at h
+    subst h
+    exact ⟨1, body, Lemmas.prependHeader_eq_frame body _ (by omega), rfl, by omega⟩
 
 /-- size bound on what the FSM sends of its own accord: the NOTIFICATIONs `validate` builds -/
 theorem validate_notif_small (o : OpenMsg) (lid las ras : UInt32) (n : Notif)
     (h : validateOpen o lid las ras = some n) : n.data.length ≤ 6 := by
-  sorry
+  exact Lemmas.validateOpen_data_small o lid las ras n h
 
 def sends : List Act → List Bytes
   | [] => []
   | .send b :: rest => b :: sends rest
   | _ :: rest => sends rest
+
+theorem mem_sends {b : Bytes} {acts : List Act} : b ∈ sends acts ↔ Act.send b ∈ acts := by
+  induction acts with
+  | nil => simp [sends]
+  | cons a rest ih => cases a <;> simp [sends, ih]
 
 /-- every write the session makes is one whole well-formed message — given that NOTIFICATIONs
 handed in from outside the FSM (plugin return values, reader errors) carry at most 4075 data
@@ -57,18 +75,27 @@ theorem session_writes_wf (cfg : SessCfg) (ph : Phase) (inp : Input) (ret : Opti
     (hin : ∀ n out, inp = .readerErr (.notif n out) → n.data.length ≤ 4075)
     (hwu : ∀ b, inp = .writeUpdate b → b.length ≤ 4077) :
     ∀ b ∈ sends (react cfg ph inp ret).2, WellFormedMsg b := by
-  sorry
+  intro b hb
+  have hmem : Act.send b ∈ (react cfg ph inp ret).2 := mem_sends.1 hb
+  rcases Lemmas.react_sends cfg ph inp ret b hmem with rfl | ⟨body, rfl, rfl⟩ | ⟨n, rfl, hn⟩
+  · exact keepalive_wf
+  · exact update_wf body (hwu body rfl)
+  · apply notif_wf
+    rcases hn with hn | hn | ⟨out, hn⟩
+    · omega
+    · exact hret n hn
+    · exact hin n out hn
 
 /-- each `WriteUpdate b` in Established contributes exactly one UPDATE whose body is `b`, and
 nothing else -/
 theorem write_update_once (cfg : SessCfg) (b : Bytes) (ret : Option Notif) :
     react cfg .established (.writeUpdate b) ret = (.established, [.send (updateBytes b)]) := by
-  sorry
+  rfl
 
 /-- once the session has ended, a write produces nothing (the Go writer returns an error) -/
 theorem write_after_close (cfg : SessCfg) (b : Bytes) (ret : Option Notif) :
     react cfg .closed (.writeUpdate b) ret = (.closed, []) := by
-  sorry
+  rfl
 
 /-- call order = wire order: over any interleaving of inputs, the UPDATE bodies written (while
 the session stays up) appear on the wire in the order of the `WriteUpdate` calls, each once -/
@@ -76,6 +103,20 @@ theorem write_order (cfg : SessCfg) (inputs : List (Input × Option Notif))
     (hup : ∀ i ∈ inputs, (∃ b, i.1 = .writeUpdate b) ∨ i.1 = .msg .keepalive ∨ i.1 = .kaTimer) :
     (sends (runSession cfg .established inputs)).filter (· ≠ kaBytes)
       = (inputs.filterMap fun i => match i.1 with | .writeUpdate b => some (updateBytes b) | _ => none) := by
-  sorry
+  induction inputs with
+  | nil => rfl
+  | cons i rest ih =>
+    obtain ⟨inp, r⟩ := i
+    have ih' := ih (fun x hx => hup x (List.mem_cons_of_mem _ hx))
+    rcases hup (inp, r) (List.mem_cons_self ..) with ⟨b, hb⟩ | hb | hb
+    · simp only at hb
+      subst hb
+      simpa [runSession, react, sends, Lemmas.updateBytes_ne_kaBytes] using ih'
+    · simp only at hb
+      subst hb
+      simpa [runSession, react, sends] using ih'
+    · simp only at hb
+      subst hb
+      simpa [runSession, react, sends] using ih'
 
 end CoreBGP.Props.C04
